@@ -1,6 +1,68 @@
 """helpers executed inside the /venv worker (real numpy / dask available)"""
+import math
+
+import numpy as np
+
+
+def _enc(v):
+    if isinstance(v, np.ndarray):
+        return {'shape': list(v.shape), 'kind': v.dtype.kind, 'vals': [_enc(x) for x in v.ravel().tolist()]}
+    if isinstance(v, (np.generic,)):
+        v = v.item()
+    if isinstance(v, float):
+        if v != v:
+            return 'nan'
+        if v in (math.inf, -math.inf):
+            return 'inf' if v > 0 else '-inf'
+        return v
+    if isinstance(v, (bool, int, str)) or v is None:
+        return v
+    if isinstance(v, (tuple, list)):
+        return [_enc(x) for x in v]
+    return repr(v)
+
+
+def numpy_eval(cases):
+    """cases: [[expr, {name: {'data': nested list, 'dtype': str}}], ...] -> encoded results with real numpy"""
+    out = []
+    for expr, inputs in cases:
+        env = {'np': np, 'nan': math.nan, 'inf': math.inf}
+        for k, spec in inputs.items():
+            env[k] = np.array(spec['data'], dtype=spec['dtype'])
+        try:
+            import warnings
+            with warnings.catch_warnings():
+                warnings.simplefilter('ignore')
+                out.append(_enc(eval(expr, env)))
+        except Exception as e:
+            out.append({'exc': type(e).__name__})
+    return out
+
+
+def dask_eval(cases):
+    """cases: [[op, data, dtype, chunks, depth, boundary], ...] with op in map_overlap / map_blocks probes"""
+    import dask.array as da
+    from sx import userfuncs
+    out = []
+    for op, data, dtype, chunks, depth, boundary in cases:
+        a = np.array(data, dtype=dtype)
+        x = da.from_array(a, chunks=tuple(tuple(c) for c in chunks))
+        try:
+            if op == 'overlap-halo':
+                r = x.map_overlap(userfuncs.halo_probe, depth=tuple(depth), boundary=boundary, meta=np.array(()))
+            elif op == 'overlap-shape':
+                r = x.map_overlap(userfuncs.shape_probe, depth=tuple(depth), boundary=boundary, meta=np.array(()))
+            elif op == 'blocks-shape':
+                r = x.map_blocks(userfuncs.shape_probe)
+            elif op == 'nanmean':
+                r = da.nanmean(x)
+            else:
+                raise KeyError(op)
+            out.append(_enc(np.asarray(r.compute())))
+        except Exception as e:
+            out.append({'exc': type(e).__name__})
+    return out
 
 
 def shim_selftest():
-    """placeholder: extended below (dask differential lives in dask_differential)"""
     return []
